@@ -181,6 +181,30 @@ def run(check):
         case, sem = runfam.build_case("c02-t%04d" % j, g, **({"triggers": trig} if trig else {}))
         gates_of[case["id"]] = []
         items.append((case, sem, g))
+    # (f) steps that consume the engine's own failure reports (crashed.error, deploy_failed.error) of another step, as a whole
+    # and field by field, in input and wait_for
+    for j in range(check.pick(24, 200)):
+        rng = random.Random(derive_seed(check.seed, "c02-report", j))
+        how = rng.choice(["crash", "deployfail"])
+        a = gen.plugin_step("a", Expr(In("tag")))
+        rep = Ref("a", "crashed", "error") if how == "crash" else Ref("a", "deploy_failed", "error")
+        leaf = Ref("a", "crashed", "error", "output") if how == "crash" else Ref("a", "deploy_failed", "error", "error")
+        place = rng.choice(["input-field", "input-any-whole", "wait_for-whole", "wait_for-field"])
+        if place == "input-field":
+            h = gen.plugin_step("h", Expr(leaf))
+        elif place == "input-any-whole":
+            h = gen.plugin_step("h", Expr(In("tag")), extra_input={"a": Expr(rep)})
+        elif place == "wait_for-whole":
+            h = gen.plugin_step("h", Expr(In("tag")), wait_for=Expr(rep))
+        else:
+            h = gen.plugin_step("h", Expr(In("tag")), wait_for={"why": Expr(leaf)})
+        steps = [a, h]
+        rng.shuffle(steps)
+        prog = Program(steps, {"handled": {"h": gen.tagref("h")}, "fine": {"a": gen.tagref("a")}}, gen.BASE_INPUT)
+        g = {"program": prog, "scripts": gen.make_scripts(steps, {"a": how}), "input": gen.base_input(rng), "shape": "failure-report-consumer/%s/%s" % (how, place), "outcome": {"a": how}}
+        case, sem = runfam.build_case("c02-r%04d" % j, g)
+        gates_of[case["id"]] = []
+        items.append((case, sem, g))
     # (d) two workflow trees that use the same sub-workflow file name with different contents, prepared and run one after the
     # other through one step registry: every run's values must come from its own files
     from ..model import Step
@@ -199,9 +223,46 @@ def run(check):
         seq = [{"files": pr.files(), "input": inp} for pr, inp in zip(progs, inputs)]
         sems = [ref.RefSem(pr, scripts, ref.normalise_input(pr.input_schema, inp)) for pr, inp in zip(progs, inputs)]
         seq_cases.append(({"id": "c02-q%04d" % j, "mode": "seq", "files": {}, "scripts": scripts, "runs": [], "extra": {"sequence": seq}}, sems))
+    # (g) a reference to a step (or to all steps) as a whole: if preparation accepts it, the referring stage must still not get
+    # its input before that step has produced what it produces
+    from ..model import RawExpr
+    whole = []
+    for j in range(check.pick(8, 40)):
+        rng = random.Random(derive_seed(check.seed, "c02-whole", j))
+        text = rng.choice(["$.steps.a", "$.steps.a", "$.steps"])
+        field = rng.choice(["wait_for", "input.a"])
+        a = gen.plugin_step("a", Expr(In("tag")))
+        h = gen.plugin_step("h", Expr(In("tag")))
+        if field == "wait_for":
+            h.fields["wait_for"] = Expr(RawExpr(text))
+        else:
+            h.fields["input"]["a"] = Expr(RawExpr(text))
+        prog = Program([h, a], {"success": {"h": gen.tagref("h"), "a": gen.tagref("a")}}, gen.BASE_INPUT)
+        scripts = gen.make_scripts([a, h], {})
+        scripts["a"]["deploys"] = [{}, {"delay_ms": 40}]
+        whole.append({"id": "c02-w%04d" % j, "files": prog.files(), "scripts": scripts, "runs": [{"input": gen.base_input(rng)}], "what": "%s: %s" % (field, text)})
     with harness.Runner() as rn:
         runfam.run_and_monitor(check, rn, items, {"C02"}, on_result=on_result, monitor=monitor)
         seq_out = rn.run_cases([c for c, _s in seq_cases])
+        wout = rn.run_cases([{k: v for k, v in c.items() if k != "what"} for c in whole])
+    for c in whole:
+        o = wout.get(c["id"], {})
+        check.count()
+        if "result" not in o:
+            check.inconclusive_case(c["id"], str(o.get("death", {}).get("key")))
+            continue
+        res = o["result"]
+        if res.get("parse_err") or res.get("prepare_err"):
+            stats["whole_step_references_refused"] = stats.get("whole_step_references_refused", 0) + 1
+            check.nontrivial("whole|refused|" + c["what"])
+            continue
+        ev = res.get("events") or []
+        hs = [e["seq"] for e in ev if e["kind"] == "exec-start" and e["src"] == "h"]
+        ae = [e["seq"] for e in ev if e["kind"] == "exec-end" and e["src"] == "a"]
+        if hs and (not ae or hs[0] < ae[0]):
+            check.report("order@whole-step-reference", "the workflow with %s was accepted and step h started (seq %d) before step a had produced anything (%s)" % (c["what"], hs[0], ae[:1]),
+                         {"case": c, "result": runfam.strip(res)})
+        check.nontrivial("whole|accepted|" + c["what"])
     for case, sems in seq_cases:
         o = seq_out.get(case["id"], {})
         check.count()
